@@ -8,7 +8,6 @@ use crate::{SocketType, ZmqResult};
 
 use async_trait::async_trait;
 use bytes::Bytes;
-use crossbeam_queue::SegQueue;
 use futures::{SinkExt, StreamExt};
 
 use std::collections::HashMap;
@@ -16,7 +15,7 @@ use std::sync::Arc;
 
 struct ReqSocketBackend {
     pub(crate) peers: scc::HashMap<PeerIdentity, Peer>,
-    pub(crate) round_robin: SegQueue<PeerIdentity>,
+    pub(crate) round_robin: crate::backend::Rotation,
     socket_monitor: Mutex<Option<mpsc::Sender<SocketEvent>>>,
     socket_options: SocketOptions,
 }
@@ -43,12 +42,8 @@ impl SocketSend for ReqSocket {
             });
         }
         // In normal scenario this will always be only 1 iteration
-        // There can be special case when peer has disconnected and his id is still in
-        // RR queue This happens because SegQueue don't have an api to delete
-        // items from queue. So in such case we'll just pop item and skip it if
-        // we don't have a matching peer in peers map
         loop {
-            let next_peer_id = match self.backend.round_robin.pop() {
+            let next_peer_id = match self.backend.round_robin.next() {
                 Some(peer) => peer,
                 None => {
                     return Err(ZmqError::ReturnToSender {
@@ -58,7 +53,6 @@ impl SocketSend for ReqSocket {
                 }
             };
             if let Some(mut peer) = self.backend.peers.get_async(&next_peer_id).await {
-                self.backend.round_robin.push(next_peer_id.clone());
                 message.push_front(Bytes::new());
                 let sent = peer.send_queue.send(Message::Message(message)).await;
                 drop(peer);
@@ -66,11 +60,14 @@ impl SocketSend for ReqSocket {
                     // Awaited, not `peer_disconnected`: a task registering another peer may have
                     // queued for the bucket while the entry was held, and may need this thread.
                     self.backend.peers.remove_async(&next_peer_id).await;
+                    self.backend.round_robin.leave(&next_peer_id);
                     return Err(e.into());
                 }
+                self.backend.round_robin.served(&next_peer_id);
                 self.current_request = Some(next_peer_id);
                 return Ok(());
             }
+            self.backend.round_robin.leave(&next_peer_id);
         }
     }
 }
@@ -89,6 +86,7 @@ impl SocketRecv for ReqSocket {
                     if !matches!(received, Some(Ok(_))) {
                         // The connection ended or failed: forget the peer (awaited, see `send`)
                         self.backend.peers.remove_async(&peer_id).await;
+                        self.backend.round_robin.leave(&peer_id);
                     }
                     match received {
                         Some(Ok(Message::Message(mut m))) => {
@@ -127,7 +125,7 @@ impl Socket for ReqSocket {
         Self {
             backend: Arc::new(ReqSocketBackend {
                 peers: scc::HashMap::new(),
-                round_robin: SegQueue::new(),
+                round_robin: Default::default(),
                 socket_monitor: Mutex::new(None),
                 socket_options: options,
             }),
@@ -165,11 +163,12 @@ impl MultiPeerBackend for ReqSocketBackend {
                 },
             )
             .await;
-        self.round_robin.push(peer_id.clone());
+        self.round_robin.join(peer_id);
     }
 
     fn peer_disconnected(&self, peer_id: &PeerIdentity) {
         self.peers.remove_sync(peer_id);
+        self.round_robin.leave(peer_id);
     }
 }
 
